@@ -188,6 +188,28 @@ class VariantResult(object):
         self.backend = 'cbmc 6.11 SAT (minisat2)'
 
 
+def _resolve_unwindset(uws, gb, cpath, alld):
+    """map (line regex, bound expr) pairs to cbmc loop ids via `cbmc --show-loops`"""
+    rc, out, err, dt = run(['cbmc', '--show-loops', '--json-ui', gb], 120)
+    loops = []
+    for m in re.finditer(r'"name":\s*"([^"]+)",\s*"sourceLocation":\s*\{(.*?)\}', out, re.S):
+        fm = re.search(r'"file":\s*"([^"]+)"', m.group(2))
+        lm = re.search(r'"line":\s*"(\d+)"', m.group(2))
+        if fm and lm and os.path.basename(fm.group(1)) == os.path.basename(cpath):
+            loops.append((m.group(1), int(lm.group(1))))
+    with open(cpath) as f:
+        lines = f.read().split('\n')
+    env = {kk: int(vv) for kk, vv in alld.items() if str(vv).lstrip('-').isdigit()}
+    items = []
+    for name, ln in loops:
+        text = lines[ln - 1] if 0 < ln <= len(lines) else ''
+        for pat, expr in uws:
+            if re.search(pat, text):
+                items.append('%s:%d' % (name, int(eval(str(expr), {'max': max, 'min': min}, env))))
+                break
+    return ['--unwindset', ','.join(items)] if items else []
+
+
 def verify_variant(unit, cpath, ranges, vname, defines, bdir, tier):
     r = VariantResult(unit, vname, defines)
     try:
@@ -245,6 +267,12 @@ def _verify_variant(r, unit, cpath, ranges, vname, defines, bdir, tier):
         if isinstance(k, str):
             k = int(eval(k, {}, {kk: int(vv) for kk, vv in alld.items() if str(vv).lstrip('-').isdigit()}))
         unw = ['--unwind', str(k)]
+        # unit.unwindset (optional): [(regex on the C source line of a loop header, bound expr)]
+        # -> per-loop limits; loops that match nothing keep the global --unwind.  Unwinding
+        # assertions stay on, so a limit that is too small is reported, never silently accepted.
+        uws = getattr(unit, 'unwindset', None)
+        if uws:
+            unw += _resolve_unwindset(uws, ib, cpath, alld)
         flags += unw + ['--unwinding-assertions']
     if unit.solver:
         flags += unit.solver
@@ -315,9 +343,7 @@ def _verify_variant(r, unit, cpath, ranges, vname, defines, bdir, tier):
         r.cover = {'canaries': len(can), 'reached': len(can) - len(dead), 'unreached': dead}
         if not can:
             raise ToolError('vacuity: no canaries in %s/%s' % (unit.name, vname))
-        if dead:
-            raise ToolError('vacuity: blocks of the extracted body unreachable under the contract in %s/%s: %s'
-                            % (unit.name, vname, ', '.join(dead[:6])))
+        # decided per UNIT in cxc.run: a canary must be reachable in at least one variant
     elif unit.cover and not r.failed:
         cmd = ['cbmc', '--no-malloc-may-fail'] + list(unit.flags) + unw + \
               (['--object-bits', str(unit.obj_bits)] if unit.obj_bits else []) + \
@@ -355,9 +381,8 @@ def _verify_variant(r, unit, cpath, ranges, vname, defines, bdir, tier):
         if unc:
             with open(cpath) as f:
                 lines = f.read().split('\n')
-            raise ToolError('vacuity: lines of the extracted body unreachable under the contract '
-                            'in %s/%s: %s' % (unit.name, vname,
-                                              '; '.join('%d:%s' % (ln, lines[ln - 1].strip()[:60]) for ln in unc[:5])))
+            # decided per UNIT in cxc.run: a line must be reachable in at least one variant
+            r.cover['unreached_text'] = {ln: lines[ln - 1].strip()[:70] for ln in unc}
 
 
 def clean(unit):
